@@ -1,3 +1,4 @@
+import TmcgProps.C13Aio2
 import TmcgProofs.Aio
 /-
   C13 — Point-to-point channels deliver intact, in order, exactly once.
